@@ -65,3 +65,45 @@ func VH_C14_Agree() {
 		}
 	}
 }
+
+// segments of template syntax: whole tags, halves of paired tags, comments, delimiters inside string
+// literals, stray delimiter characters, whitespace-control variants
+var vhC14Segs = []string{
+	"t ", "{{ x }}", "{% if x %}", "{% else %}", "{% endif %}", "{% verbatim %}", "{% endverbatim %}", "{# c #}", "{#- {{ x }} -#}",
+	"{%- set y = 1 -%}", "{{ '{#' }}", "\\", "{", "#}", "%}", "}}", "'", "{#", "{{", "{%",
+	"{{- x -}}", "{% for i in [1, 2] %}", "{% endfor %}", "{% set y = x %}", "{{ y }}", "{{ \"%}\" ~ '}}' }}", "\n ", "{{ x|upper }}", "{% raw %}", "{% endraw %}",
+}
+
+// VH_C14_Segments: sources built from K segments of template syntax (every sequence): the two
+// tokenizers lead to the same acceptance, the same render error-ness and the same bytes.
+func VH_C14_Segments() {
+	k := 1 + symChoice(symParam("K", 3))
+	s := ""
+	for i := 0; i < k; i++ {
+		s += vhC14Segs[symChoice(symParam("S", len(vhC14Segs)))]
+	}
+	a, ea := vhTokenize(s, false)
+	b, eb := vhTokenize(s, true)
+	symCover("tokenized")
+	var na, nb Node
+	if ea == nil {
+		na, ea = vhParseToks(a)
+	}
+	if eb == nil {
+		nb, eb = vhParseToks(b)
+	}
+	symAssert((ea == nil) == (eb == nil), "same-acceptance")
+	if ea == nil && eb == nil {
+		symCover("both-parse")
+		e := New()
+		x := symStringIn(1, "a0 ")
+		ctx := map[string]interface{}{"x": x, "a": "A"}
+		oa, ra := vhRenderNode(e, na, ctx)
+		ob, rb := vhRenderNode(e, nb, ctx)
+		symAssert((ra == nil) == (rb == nil), "same-render-error")
+		if ra == nil && rb == nil {
+			symCover("both-render")
+			symAssert(oa == ob, "same-output")
+		}
+	}
+}
